@@ -175,6 +175,11 @@ def skip_edges(u, idx):
 
 def rule_token(ctx, u):
     bi = u.bi
+    # bits are consumed one at a time, each immediately before polling that child: a bulk clear
+    # erases wake-ups that arrived during the pass
+    for s in bi.sites:
+        if s.callee.owner in scan.READY and s.callee.name in ("clear_all_ready", "clear_all", "reset"):
+            ctx.fail("C01.TOKEN", u.where, "readiness bits are cleared in bulk (%s): a wake-up recorded during the pass is erased" % s.callee.name, site=s.where)
     sites = scan.disarm_sites(bi)
     if not sites:
         ctx.fail("C01.TOKEN", u.where, "no clear_ready site in sub-waker poll body", site=u.body.span)
